@@ -9,9 +9,21 @@ BASELINE_OFF = ("cmake -G Ninja -B /repo/_build -S /repo >/dev/null && cmake --b
 
 # id -> dict(level, text, note, technique)
 # properties whose check is built, validated (3 seeds silent, mutants caught) and claimed
-READY = ["C02", "C03", "C04", "C05", "C07", "C08", "C09", "C10", "C11", "C12", "C15", "C16", "C17"]
+READY = ["C01", "C02", "C03", "C04", "C05", "C07", "C08", "C09", "C10", "C11", "C12", "C15", "C16", "C17"]
 
 CHECKS = {
+    "C01": dict(
+        level="exploration",
+        text="Real Transport::tcp sessions against independent raw TCP peers and an OpenSSL peer written directly against libssl, over the matrix {plain, TLS 1.2/1.3} x {edge, level triggered} x "
+             "{batching on/off} x {1, 4, 16 sender threads} x payload-size distributions, with real kernel back-pressure (soSndBuf 4096, small peer buffers, bursty peer reads) and a send/recv/read/"
+             "write interposer that shortens counts at a seeded subset of calls, at every call, or at exactly call i / cut c (single-cut sweep, exhaustive in thorough for a 3-payload script, including "
+             "cuts inside TLS handshake writes and inside the pending-write drain). Every payload is self-describing (sender, sequence, length, checksum); an offline checker that shares no code with "
+             "iora parses what the peer received: whole payloads only, each at most once, per-sender order, cross-thread order by real-time precedence, no loss while the session stays open, a prefix "
+             "plus exactly one close otherwise; the reverse direction is a position-encoded stream verified inside onData. A stall is a violation only when logically characterised (accepted bytes "
+             "outstanding, engine counters frozen, peer blocked on an empty socket, kernel send queue empty, session not closed) and reproduced in an isolated re-run.",
+        note="Loopback kernel of this sandbox; closeOnBackpressure=false is excluded by the property; idle/connect/handshake timeouts are raised in the cells (not part of this property). "
+             "Bytes still sitting in kernel queues are reported as kernel-not-delivering and can never become a violation.",
+        technique="runtime monitoring: self-describing byte stream checked at an independent peer, short-count injection at the syscall boundary, real back-pressure, ASan/UBSan/TSan"),
     "C02": dict(
         level="exploration",
         text="Randomised histories on the real TCP and UDP engines (8-22 concurrently driven sessions per transport; every close origin: app close, peer FIN, "
